@@ -5,7 +5,7 @@ import symtable
 
 from hypothesis import strategies as st
 
-from pbt import apigen, inputs
+from pbt import widegen, apigen, inputs
 from pbt.worker import outcome
 
 SUPPORT = {"math": "math", "Optional": "typing", "Union": "typing", "Tuple": "typing", "Callable": "typing", "Any": "typing",
@@ -170,6 +170,19 @@ def global_reads(src):
     return out
 
 
+def user_imports_of(src):
+    """top-level import lines of a Mamba source that are also Python import statements"""
+    out = []
+    for line in src.split("\n"):
+        if line.startswith(("import ", "from ")):
+            try:
+                ast.parse(line)
+                out.append(line)
+            except SyntaxError:
+                pass
+    return out
+
+
 def judge_module(py, user_names, user_imports):
     tree = ast.parse(py)
     bound = module_bindings(tree)
@@ -186,8 +199,14 @@ def judge_module(py, user_names, user_imports):
         elif isinstance(s, ast.ImportFrom):
             for a in s.names:
                 importers.setdefault(a.asname or a.name, []).append(i)
+    user_bound = {}
+    for line in user_imports:
+        ut = ast.parse(line).body[0]
+        for a in ut.names:
+            nm = a.asname or a.name
+            user_bound[nm] = user_bound.get(nm, 0) + 1
     for name in SUPPORT:
-        if name in user_names:
+        if name in user_names and name not in user_bound:
             continue
         first_use = None
         for i, s in enumerate(tree.body):
@@ -199,9 +218,10 @@ def judge_module(py, user_names, user_imports):
         if first_use is None:
             continue
         imps = importers.get(name, [])
-        if len(imps) != 1:
+        # the source may import the same name itself (reproduced unchanged, wherever it stands): then up to that many more
+        if not (1 <= len(imps) <= 1 + user_bound.get(name, 0)):
             return "support name %s is used but imported %d times" % (name, len(imps))
-        if imps[0] > first_use:
+        if min(imps) > first_use:
             return "support name %s is imported after its first use" % name
     # user imports reproduced unchanged
     have = set()
@@ -241,7 +261,8 @@ class C16:
         sup = support_programs()
         api = apigen.programs().map(lambda p: {"gen": "api", "src": p["src"], "user_names": [], "user_imports": []})
         core = inputs.sources(kinds=("core",)).map(lambda c: dict(c, user_names=[], user_imports=[]))
-        return st.tuples(st.one_of(sup, sup, sup, api, core), st.booleans()).map(lambda t: dict(t[0], annotate=t[1]))
+        wide = widegen.programs().map(lambda c: dict(c, user_names=[], user_imports=user_imports_of(c["src"])))
+        return st.tuples(st.one_of(sup, sup, sup, api, core, wide, wide), st.booleans()).map(lambda t: dict(t[0], annotate=t[1]))
 
     def summarize(self, case):
         return {"gen": case["gen"], "annotate": case["annotate"], "src": case["src"][:800]}
@@ -250,6 +271,8 @@ class C16:
         r = worker.transpile1(case["src"], case["annotate"])
         oc = outcome(r)
         stats.inc("gen:" + case["gen"])
+        for sn in case.get("snippets", []):
+            stats.inc("wide_snippet:" + sn)
         if oc != "ok":
             stats.inc("rejected" if oc == "err" else "crash_left_to_C03")
             if oc == "err" and case["gen"] == "support":
